@@ -97,13 +97,20 @@ func (s bitmap64) And(provider Provider[uint64]) {
 		s.bitmap.And(typedProvider.bitmap)
 
 	case Duplex[uint64]:
+		// Collect first: removing from the bitmap while iterating it skips elements
+		var absent []uint64
+
 		s.Each(func(nextValue uint64) bool {
 			if !typedProvider.Contains(nextValue) {
-				s.Remove(nextValue)
+				absent = append(absent, nextValue)
 			}
 
 			return true
 		})
+
+		for _, value := range absent {
+			s.Remove(value)
+		}
 	}
 }
 func (s bitmap64) Or(provider Provider[uint64]) {
@@ -135,12 +142,19 @@ func (s bitmap64) AndNot(provider Provider[uint64]) {
 		s.bitmap.AndNot(typedProvider.bitmap)
 
 	case Duplex[uint64]:
+		// Collect first: removing from the bitmap while iterating it skips elements
+		var present []uint64
+
 		s.Each(func(nextValue uint64) bool {
 			if typedProvider.Contains(nextValue) {
-				s.Remove(nextValue)
+				present = append(present, nextValue)
 			}
 
 			return true
 		})
+
+		for _, value := range present {
+			s.Remove(value)
+		}
 	}
 }
